@@ -195,6 +195,30 @@ def relative_work(job):
     return None
 
 
+_SRC = {}
+
+
+def source_order(code):
+    """date order of a language / locale in the shipped CLDR source (None when the source has none)"""
+    import json
+    import os
+    import re
+
+    import dateparser_data
+
+    lang = re.split(r"-(?=[A-Z0-9]+$)", code)[0]
+    if lang not in _SRC:
+        p = os.path.join(os.path.dirname(os.path.abspath(dateparser_data.__file__)), "cldr_language_data",
+                         "date_translation_data", lang + ".json")
+        _SRC[lang] = json.load(open(p, encoding="utf-8")) if os.path.exists(p) else None
+    d = _SRC[lang]
+    if d is None:
+        return None
+    if code == lang:
+        return d.get("date_order")
+    return d.get("locale_specific", {}).get(code, {}).get("date_order", d.get("date_order"))
+
+
 def order_work(job):
     from dateparser.date import DateDataParser
 
@@ -203,8 +227,17 @@ def order_work(job):
 
     info = info_of(code)
     order = info.get("date_order", "MDY")
+    # "as the locale's users would read them": the order recorded in the CLDR source the repository
+    # ships (dateparser_data/cldr_language_data, not part of the package) is the reference; the
+    # package's own data must agree with it
+    src = source_order(code)
+    early = []
+    if src is not None and src != order:
+        early.append(("order:%s:differs-from-cldr-source" % code, "date_order of %s" % code,
+                      "package data says %s, dateparser_data/cldr_language_data says %s" % (order, src)))
+        order = src
     kw = {"languages": [code]} if kind == "language" else {"locales": [code]}
-    bad = []
+    bad = list(early)
     n = 0
     fields = {"D": 2, "M": 3, "Y": 2016}
 
